@@ -918,6 +918,10 @@ func (ex *Exec) evCall(x *SCall, env *Env) Val {
 		return Val{T: ex.V.fnConstByKey(ex, k.Val), Ty: tyRef}
 	case "subobj":
 		ex.specFail("use field selection for sub-objects")
+	case "seqdel":
+		// seqdel(s, p): s without its element at position p
+		a := arg(0)
+		return Val{T: ex.D.Fn("seqdel", SSeq, a.T, ex.evInt(x.Args[1], env)), Ty: tySeq}
 	case "seqof":
 		// the (immutable) sequence of the elements of a slice of references / ints
 		a := arg(0)
